@@ -109,7 +109,7 @@ def attribute32(v):
         return 'C09'
     if c.startswith('size-'):
         return 'C14'
-    if c in ('goroutine-leak', 'gate-trace-rejected'):
+    if c in ('goroutine-leak', 'parallel-call-outcome'):
         return 'C12'
     if c == 'iteration':
         return 'C04'
@@ -407,10 +407,23 @@ GATE_CONFIGS = {
 }
 
 
+WALK_QUICK = ['paror_w1_k3', 'paror_w2_k5', 'heapor_w2_i3', 'heapor_w1_i5', 'parand_w1_i0', 'parand_w3_i2']
+WALK_THOROUGH = sorted(GATE_CONFIGS)
+
+
 def gate_cfg(name):
     pl, nw, lk, hk, items = GATE_CONFIGS[name]
     return ('SPECIFICATION TSpec\nCONSTANTS\n  Pipeline = "%s"\n  NW = %d\n  KBITS = 4\n  LK = %d\n  HK = %d\n  FixedWidth = FALSE\n'
             '  CapA = 64\n  CapB = 64\n  Items <- %s\nINVARIANT NotFinished SafeAlong\nPOSTCONDITION HighWater\nCHECK_DEADLOCK FALSE\n') % (pl, nw, lk, hk, items)
+
+
+def sched_model(name):
+    """State graph of ParAgg for one configuration, as edge lines for the schedule walker (harness/parwalk.go)."""
+    pl, nw, lk, hk, items = GATE_CONFIGS[name]
+    cfg = ('SPECIFICATION Spec\nCONSTANTS\n  Pipeline = "%s"\n  NW = %d\n  KBITS = 4\n  LK = %d\n  HK = %d\n  FixedWidth = FALSE\n'
+           '  CapA = 64\n  CapB = 64\n  Items <- %s\nINVARIANT NoSendOnClosed NoDuplicateResult AllCollected\n'
+           'ACTION_CONSTRAINT EmitEdge\nCHECK_DEADLOCK FALSE\n') % (pl, nw, lk, hk, items)
+    return {'name': 'sched_' + name, 'module': 'SchedParAgg.tla', 'cfg_text': cfg, 'workers': 1, 'deps': ('ParAgg.tla',)}
 
 
 def c12(tier):
@@ -426,6 +439,7 @@ def c12(tier):
             {'kind': 'drive', 'profile': 'parallel', 'traces': 64 if q else 800, 'steps': 40, 'shards': 8, 'gomaxprocs': [1, 2, 4, 16]},
             {'kind': 'drive', 'profile': 'parallel', 'traces': 48 if q else 600, 'steps': 30, 'shards': 8, 'gomaxprocs': [1, 2, 4, 16], 'extra': ['-spread', '300']},
             {'kind': 'gate', 'configs': sorted(GATE_CONFIGS), 'runs': 12 if q else 150, 'gomaxprocs': [1, 2, 4, 16]},
+            {'kind': 'walk', 'configs': WALK_QUICK if q else WALK_THOROUGH, 'walks': 1500 if q else 40000, 'gomaxprocs': [4, 16, 2, 1]},
         ],
     }
 
